@@ -487,6 +487,24 @@ func (s *Sim) hop(r *CallRec, ctx context.Context, ss grpc.ServerStream, op Op) 
 			grpc.SendHeader(ctx, mdOf(op.MD))
 		}
 		e.Log("h.sendhdr", "", id, "")
+	case 'L', 'M':
+		// response metadata offered after the first message has gone out: too late, the
+		// call must be refused and nothing of it may reach the wire
+		e.Pt("h.latehdr")
+		var err error
+		switch {
+		case ss == nil:
+			err = grpc.SetHeader(ctx, mdOf(op.MD))
+		case op.K == 'L':
+			err = ss.SetHeader(mdOf(op.MD))
+		default:
+			err = ss.SendHeader(mdOf(op.MD))
+		}
+		e.Log("h.latehdr", "", id, errStr(err))
+		e.Note("h.latehdr")
+		if err == nil {
+			e.Note("h.latehdr.accepted")
+		}
 	case 'T':
 		e.Pt("h.settrl")
 		md := mdOf(op.MD)
